@@ -137,6 +137,24 @@ StateFirstFailing(bs) ==
   ELSE IF ~RuleStateProofs(bs) THEN "range_proofs"
   ELSE IF ~RuleStateSigs(bs) THEN "signatures" ELSE "none"
 
+\* ---- the block pipeline: Chain::process_block(b, opts) = pipe::validate_block (Block::validate against the
+\* previous total offset) ; verify_block_sums ; apply.  The caller's Options say where the block comes from
+\* (NONE: relayed, SYNC: body sync, MINE: mined here) - they are no part of the verdict: on top of a valid state
+\* a block is accepted only if it balances by itself (coinbase claims the subsidy under its own kernel - these
+\* histories carry no fees -, the rest moves value only, every kernel is a signed commitment to zero, every
+\* output is proven).
+PipelineOptions == {"NONE", "SYNC", "MINE"}
+BlockBalanced(b) ==
+  LET outs == BlockOuts(b) ins == BlockIns(b) ks == BlockKerns(b)
+  IN  /\ b.cb_out.v = Reward /\ b.cb_out.r = b.cb_kern.x /\ b.cb_kern.xv = 0
+      /\ <<SSum(outs, LAMBDA o : o.v) - SSum(ins, LAMBDA i : i.v) - Reward, SSum(outs, LAMBDA o : o.r) - SSum(ins, LAMBDA i : i.r)>>
+            = <<SSum(ks, LAMBDA e : e.xv), SSum(ks, LAMBDA e : e.x) + BlockOff(b)>>
+      /\ \A i \in 1..Len(outs) : outs[i].pf
+      /\ \A i \in 1..Len(ks) : ks[i].sg /\ ks[i].xv = 0
+PipelineAccepts(bs, h, opt) == BlockBalanced(bs[h])
+\* a history all of whose blocks pass the pipeline leaves a state the full validation accepts (the pipeline
+\* keeps the invariant the full-state equation states) - checked on the generated histories below
+
 \* ---- the property (definition; no reference to the rules)
 StateNoValueCreated(bs) ==
   LET u == Unspent(bs) k == Kernels(bs)
@@ -239,6 +257,12 @@ StateChecks ==
         /\ (sphase = "state" /\ hplan.var.cls \in SumsBlind) =>           \* ... some of them by the signature /
               (FastValid(bs) /\ StateFirstFailing(bs) \in {"range_proofs", "signatures"})   \* proof check alone
         /\ (sphase = "state" /\ hplan.var.cls \notin SumsBlind) => StateFirstFailing(bs) = "kernel_sums"
+        \* the pipeline, whatever its options: every block of an honest history passes; of a corrupted one exactly the
+        \* corrupted block does not (the blocks before it are delivered through the real pipeline, the corrupted one is
+        \* offered to it under every option set and must be refused); and if every block passes the state is valid
+        /\ \A opt \in PipelineOptions : \A h \in 1..Len(bs) :
+              PipelineAccepts(bs, h, opt) <=> ~(sphase = "state" /\ h = hplan.var.h)
+        /\ (\A h \in 1..Len(bs) : BlockBalanced(bs[h])) => fv
         \* the rules as the validator evaluates them (batch walks) are the pointwise rules
         /\ RuleStateSigs(bs) <=> \A i \in 1..Len(Kernels(bs)) : Kernels(bs)[i].sg
         /\ RuleStateProofs(bs) <=> \A i \in 1..Len(Unspent(bs)) : Unspent(bs)[i].pf
